@@ -4,7 +4,8 @@ SYM_METANET_SRC override.  Usage: /venv/bin/python tools/mutants.py [PROP ...] [
 import os, shutil, subprocess, sys, tempfile
 
 M = []  # (id, props, file, old, new)
-def m(id, props, file, old, new): M.append((id, props.split(), file, old, new))
+def m(id, props, file, old, new): M.append((id, props.split(), [(file, old, new)]))
+def mm(id, props, edits): M.append((id, props.split(), edits))
 
 N = "network.py"
 # ---- C08
@@ -85,6 +86,22 @@ m("c13_use_lower", "C13", CO, "        engines = get_available_engines()\n      
 m("c13_step_sets_engine", "C13", N, "        # initialization\n        if init_conditions is None:", "        # initialization\n        if engine is not None:\n            import sym_metanet\n            sym_metanet.engine = engine\n        if init_conditions is None:")
 m("c13_dest_density_congested", "C13", DS, "        if engine is None:\n            engine = get_current_engine()\n        link_up = self._get_entering_link(net)\n        return engine.destinations.get_congested_downstream_density(", "        engine = get_current_engine()\n        link_up = self._get_entering_link(net)\n        return engine.destinations.get_congested_downstream_density(")
 
+# ---- C19
+m("c19_scan_links_only", "C19", CA, "        for el, group in product(\n            net.elements, [\"_states\", \"_actions\", \"_disturbances\"]\n        ):", "        for el, group in product(\n            [l for _, _, l in net.links], [\"_states\", \"_actions\", \"_disturbances\"]\n        ):")
+m("c19_no_group_check", "C19", CA, "            if any(getattr(el, group)) and not getattr(el, f\"has{group}\"):", "            if False:")
+m("c19_no_nextstate_check", "C19", CA, "            if any(el._states) and not el.has_next_states:", "            if False:")
+m("c19_states_only", "C19", CA, "net.elements, [\"_states\", \"_actions\", \"_disturbances\"]", "net.elements, [\"_states\"]")
+m("c19_allow_free", "C19", CA, "{\"allow_duplicate_io_names\": True, \"cse\": True},", "{\"allow_duplicate_io_names\": True, \"cse\": True, \"allow_free\": True},")
+m("c19_valueerror", "C19", CA, "                raise RuntimeError(\n                    f\"Found no next state in", "                raise ValueError(\n                    f\"Found no next state in")
+m("c19_step_skip_stepped", "C19 C12", BS, "        assert self.states is not None, \"States not initialized.\"\n", "        assert self.states is not None, \"States not initialized.\"\n        if self.next_states is not None and len(self.next_states) == len(self.states) and kwargs.get('_force') is None and hasattr(self, 'N') and self.N == 1:\n            return\n")
+mm("c19_tofunc_cache", "C19 C12", [(CA, "        if parameters is None:\n            parameters = {}\n\n        # gather inputs", "        if parameters is None:\n            parameters = {}\n        key = (id(net), compact, more_out)\n        if key in _FCACHE and not parameters:\n            return _FCACHE[key]\n\n        # gather inputs"),
+    (CA, "VarType = TypeVar(\"VarType\", cs.SX, cs.MX)\n", "VarType = TypeVar(\"VarType\", cs.SX, cs.MX)\n_FCACHE = {}\n"),
+    (CA, "        return cs.Function(\n            \"F\",", "        _FCACHE[(id(net), compact, more_out)] = F = cs.Function(\n            \"F\","),
+    (CA, "            {\"allow_duplicate_io_names\": True, \"cse\": True},\n        )", "            {\"allow_duplicate_io_names\": True, \"cse\": True},\n        )\n        return F")])
+m("c19_has_next_states_any", "C19", BS, "        return self.next_states is not None\n", "        return self.next_states is not None or self.states is not None\n")
+m("c19_init_clears_nothing_but_marks", "C19", CA, "            if any(el._states) and not el.has_next_states:", "            if any(el._states) and not el.has_next_states and not el.has_states:")
+m("c19_filter_free_inputs", "C19", CA, "        x_next = {\n            el: _filter_vars(vars, independent=False)\n            for el, vars in net.next_states.items()\n        }", "        x_next = {\n            el: _filter_vars(vars, independent=False)\n            for el, vars in net.next_states.items()\n        }\n        _known = set(str(s) for a in args_in for s in cs.symvar(a))\n        for el in list(x_next):\n            x_next[el] = {k: v for k, v in x_next[el].items() if all(str(s) in _known for s in cs.symvar(v))}")
+
 def run(prop, src, runs):
     env = dict(os.environ, SYM_METANET_SRC=src)
     p = subprocess.run(["/venv/bin/python", "-m", "sim.check", prop, "--runs", str(runs), "--no-evidence"], cwd="/verif", env=env, capture_output=True, text=True, timeout=1800)
@@ -101,16 +118,19 @@ def main():
     tmp = tempfile.mkdtemp(prefix="mut_", dir="/tmp")
     missed = []
     try:
-        for id, ps, file, old, new in M:
+        for id, ps, edits in M:
             if only and not any(o in id for o in only): continue
             if props and not set(ps) & set(props): continue
             shutil.rmtree(os.path.join(tmp, "src"), ignore_errors=True)
             shutil.copytree("/repo/src", os.path.join(tmp, "src"))
-            path = os.path.join(tmp, "src", "sym_metanet", file)
-            s = open(path).read()
-            if s.count(old) != 1:
-                print(f"{id}: PATTERN x{s.count(old)} -- skipped"); continue
-            open(path, "w").write(s.replace(old, new))
+            bad = False
+            for file, old, new in edits:
+                path = os.path.join(tmp, "src", "sym_metanet", file)
+                s = open(path).read()
+                if s.count(old) != 1:
+                    print(f"{id}: PATTERN x{s.count(old)} in {file} -- skipped"); bad = True; break
+                open(path, "w").write(s.replace(old, new))
+            if bad: continue
             for p in ps:
                 if props and p not in props: continue
                 rc, viol = run(p, os.path.join(tmp, "src"), runs)
